@@ -4,11 +4,14 @@
    Build (in the directory holding lin.ml, lin.mli and a copy of this file):
      ocamlfind ocamlopt -w -a lin.mli lin.ml lincheck_main.ml -o lincheck
 
-   Usage:   lincheck [-lp | -nomemo] <spec> [cap]        (reads stdin, writes stdout)
+   Usage:   lincheck [-lp | -memo | -nomemo] <spec> [cap]        (reads stdin, writes stdout)
 
-     By default the verdict is computed by Lin.lincheck_memo (search with a cache of dead
-     ends; LinProofs.lincheck_memo_eq proves it equal to Lin.lincheck); -nomemo calls
-     Lin.lincheck itself.  The two always print the same verdicts.
+     -nomemo  decide with Lin.lincheck (plain Wing-Gong search)
+     -memo    decide with Lin.lincheck_memo (same search with a cache of dead ends;
+              LinProofs.lincheck_memo_eq proves lincheck_memo = lincheck, so the verdicts are
+              the same: only the running time differs -- much faster on non-linearizable
+              set/map histories, a few times slower when no state ever repeats)
+     default  -memo for set and map, -nomemo for the other specifications
 
      <spec> ::= fifo | bfifo <cap> | stack | deque | pqueue | bpqueue <cap> | set | map
                 (<cap> is a non-negative integer: the capacity of the bounded container)
@@ -154,13 +157,14 @@ let parse_event ~(lp : bool) (k : kind) (toks : string list) : aev =
 
 let usage () =
   prerr_endline
-    "usage: lincheck [-lp | -nomemo] (fifo | bfifo <cap> | stack | deque | pqueue | bpqueue <cap> | set | map)";
+    "usage: lincheck [-lp | -memo | -nomemo] (fifo | bfifo <cap> | stack | deque | pqueue | bpqueue <cap> | set | map)";
   exit 64
 
 let () =
   let args = List.tl (Array.to_list Sys.argv) in
   let lp, args = match args with "-lp" :: r -> true, r | r -> false, r in
-  let memo, args = match args with "-nomemo" :: r -> false, r | r -> true, r in
+  let memo_opt, args =
+    match args with "-memo" :: r -> Some true, r | "-nomemo" :: r -> Some false, r | r -> None, r in
   let cap_of s = match int_of_string_opt s with Some n when n >= 0 -> nat_of_int n | _ -> usage () in
   let (sp : spec), (k : kind) =
     match args with
@@ -174,6 +178,7 @@ let () =
     | ["map"] -> mapSpec, KMap
     | _ -> usage ()
   in
+  let memo = match memo_opt, k with Some b, _ -> b | None, (KSet | KMap) -> true | None, _ -> false in
   let events : aev list ref = ref [] in      (* current history, reversed *)
   let error : string option ref = ref None in
   let reported = ref 0 and had_error = ref false in
@@ -187,9 +192,11 @@ let () =
            let h = erase sp tr in
            if not (wf_historyb sp h) then print_endline "MALFORMED"
            else
-             let st_eqb : st -> st -> bool =
-               match k with KMap -> Obj.magic zzlist_eqb | _ -> Obj.magic zlist_eqb in
-             let ok = if memo then lincheck_memo sp st_eqb h else lincheck sp h in
+             let (st_eqb : st -> st -> bool), (st_hash : st -> positive) =
+               match k with
+               | KMap -> Obj.magic zzlist_eqb, Obj.magic zzlist_hash
+               | _ -> Obj.magic zlist_eqb, Obj.magic zlist_hash in
+             let ok = if memo then lincheck_memo sp st_eqb st_hash h else lincheck sp h in
              print_endline (if ok then "OK" else "NOTLIN")
          end);
     incr reported; events := []; error := None
